@@ -10,7 +10,7 @@
    `ks` over every resolution of the either/with choices; `fuel` over every evaluation depth.
    Model: C02/Lang.v (values, expressions, eval), C02/Sem.v (decision trees, run, the two
    symbolic executions, the checker). *)
-From PGV Require Import C02.Lang C02.Sem C02.Proofs.
+From PGV Require Import C02.Lang C02.Sem C02.Proofs C02.Mono.
 Open Scope string_scope.
 
 (* The checker is sound: trees it accepts behave identically under the single interpreter `run`,
@@ -37,6 +37,18 @@ Theorem accepted_trees_are_total : forall t1 t2, equiv_check t1 t2 = true ->
   has_fail t1 = false /\ has_fail t2 = false.
 Proof. exact equiv_check_no_fail. Qed.
 Print Assumptions accepted_trees_are_total.
+
+(* Fuel bounds the depth of an evaluation, it does not select a behaviour: an evaluation that succeeds keeps its value
+   with any larger fuel, and an outcome of `run` that is not an error is the outcome for any larger fuel (so the
+   `forall fuel` of the per-label theorems speaks about one behaviour per label, state and choice list). *)
+Theorem eval_fuel_monotone : forall D f f' r e v, (f <= f')%nat -> eval D f r e = Ok v -> eval D f' r e = Ok v.
+Proof. exact eval_fuel_mono. Qed.
+Print Assumptions eval_fuel_monotone.
+
+Theorem run_fuel_monotone : forall D t f f' r ks, (f <= f')%nat ->
+  not_err (run D f t r ks) -> run D f' t r ks = run D f t r ks.
+Proof. exact run_fuel_mono. Qed.
+Print Assumptions run_fuel_monotone.
 
 (* non-vacuity: two syntactically different trees with a choice, a branch and a commit are accepted
    (the normaliser removes the constant test), and a tree differing in one written expression,
